@@ -8,11 +8,11 @@ VERIF = os.path.dirname(os.path.dirname(os.path.abspath(__file__)))
 PBT = "property-based testing"
 D = {
     "C01": ("exploration",
-            "Whole-output equality with an independent top-down renderer on the merged forest. Bounded-exhaustive: every ordered forest with <=5 (quick) / <=7 (thorough) nodes over {a,b} x 6 spellings x 4 branch tuples x both code paths (iterator and slice); random: rapid forests up to 120 nodes with bullets, blanks, Unicode and invalid UTF-8 in names x random spelling x random branch 4-tuple.",
+            "Whole-output equality with an independent top-down renderer on the merged forest. Bounded-exhaustive: every ordered forest with <=5 (quick) / <=8 (thorough) nodes over {a,b} x 6 spellings x 4 branch tuples x both code paths (iterator and slice); random: rapid forests (depth-sequence generator, deep spines of 18..90 levels, wide forests beyond 4 KiB / 64 KiB, names of 4000..60000 bytes, bullets, blanks, Unicode, invalid UTF-8) x random spelling x random branch 4-tuple; thorough adds coverage-guided fuzzing of the generator (rapid.MakeFuzz).",
             "trusts harness/model (Merge, Render, Spell), written from the statement; beyond the enumeration bound the domain is sampled",
             PBT + ": bounded-exhaustive enumeration + rapid generation against a reference-model oracle (whole-output equality)"),
     "C02": ("exploration",
-            "Malformation classes are injected (never recognised) into well-formed spellings: injected => error (format errors must name the row), well-formed => nil and the complete result in text/JSON/YAML/TOML/dry-run/walk, simple and massive mode. Exhaustive over forests <=4/5 nodes x spelling panel x every class at every line; random beyond.",
+            "Malformation classes are injected (never recognised) into well-formed spellings: injected => error (format errors must name the row), well-formed => nil and the complete result in text/JSON/YAML/TOML/dry-run/walk, simple and massive mode. Exhaustive over forests <=4/6 nodes x spelling panel x every class at every line (no-bullet with 4 marks incl. '#'); random beyond incl. documents larger than 4 KiB.",
             "the injector builds documents that are malformed by the statement whatever else they contain; in massive mode only 'some error' is required for format errors (which row is named depends on the schedule)",
             PBT + ": fault-injecting generator (one malformation per document) + completeness oracle against the reference renderer/decoders"),
     "C03": ("exploration",
@@ -24,11 +24,11 @@ D = {
             "the decoders are the libraries gtree itself links (independent code paths: decoder vs encoder); names are valid UTF-8; the listed known finding (YAML + names containing a line break, yaml.v3) is excluded by construction and counted",
             PBT + ": round-trip oracle through independent decoders (exhaustive hostile-name placement + rapid)"),
     "C05": ("exploration",
-            "Visit sequence compared fact by fact (Row, Branch, Name, Level, Path, HasChild) with the renderer's facts; exactly k+1 callbacks and the identical error object when the callback fails at k; no visit after an iterator break; rows equal the text output. Exhaustive over forests <=5/7 nodes x every stop position x all six entry points (incl. deprecated aliases).",
+            "Visit sequence compared fact by fact (Row, Branch, Name, Level, Path, HasChild) with the renderer's facts; exactly k+1 callbacks and the identical error object when the callback fails at k; no visit after an iterator break; rows equal the text output. Exhaustive over forests <=5/8 nodes x every stop position x all six entry points (incl. deprecated aliases); random adds deep spines, long names, earlier operations on the same tree and nodes added between creating and ranging over an iterator.",
             "names are single valid path elements (the statement defines Path only for those)",
             PBT + ": reference-model oracle + differential (walk rows vs text output), exhaustive stop positions + rapid"),
     "C06": ("exploration",
-            "Set algebra on before/after snapshots of a jail: created == node paths exactly, nothing else removed or changed, kind rule (childless + suffix => empty regular file), pre-existing root => ErrExistPath and no diff, OS refusals (256-byte name, target is a file, parent is a file) => error and no stray entries. Exhaustive over forests <=4/5 nodes over {a,b,ab} x 5 extension lists; random with extension lists cut from the generated names.",
+            "Set algebra on before/after snapshots of a jail: created == node paths exactly, nothing else removed or changed, kind rule (childless + suffix => empty regular file), pre-existing root => ErrExistPath and no diff, OS refusals (256-byte name, target is a file, parent is a file) => error and no stray entries. Exhaustive over forests <=4/6 nodes over {a,b,ab} x 7 extension lists (incl. prefix-related and repeated extensions); random with extension lists cut from the generated names, and earlier operations (incl. a real Mkdir elsewhere) on the same From-Root tree.",
             "tmpfs jail per case; OS refusals limited to what root can provoke on tmpfs (no EACCES/ENOSPC); in massive mode only the success clauses are required (see known findings of C10)",
             PBT + ": filesystem snapshot diff oracle (set algebra) over generated forests, extension lists and directory states"),
     "C07": ("exploration",
@@ -56,7 +56,7 @@ D = {
             "native fuzz campaigns are not reproducible from a seed (their saved inputs are); real Mkdir on arbitrary bytes is driven only from the rapid side (a fuzz worker cannot chroot itself)",
             "fuzzing: grammar-aware mutation (rapid) + coverage-guided native go fuzzing with in-target semantic oracles"),
     "C13": ("exploration",
-            "Stateful, model-based: rapid state machine over NewRoot / Add (any node of any live tree) / any From-Root operation / OutputFromMarkdown in between / repeat; the model forest is compared after every step; ALL histories up to length 5/6 over a 11-symbol alphabet with two trees; the same histories split over 2..8 goroutines (also under -race) and concurrent independent From-Markdown calls.",
+            "Stateful, model-based: rapid state machine over NewRoot / Add (any node of any live tree, names that may not be path elements) / any From-Root operation / iterators created now and ranged over later / From-Markdown calls in between (fresh spelling each time, option-less verify) / repeat, with one caller-owned extension slice reused by every call; the model forest is compared after every step; ALL histories up to length 5/7 over an 11-symbol alphabet with two trees; the same histories split over 2..24 goroutines (also massive, also under -race), concurrent independent From-Markdown calls (text and dry-run) and bursts of 2..64 simultaneous massive calls.",
             "concurrent schedules are sampled (GOMAXPROCS 1/2/4/16, Gosched between steps)",
             PBT + ": stateful model-based testing (rapid state machine), bounded-exhaustive histories, concurrent histories"),
     "C14": ("fault_enumeration",
@@ -64,7 +64,7 @@ D = {
             "writer faults are observed through a recording writer; in massive mode the number of writes is that of the fault-free run of the same schedule class",
             "fault enumeration: reader failure at every byte offset, writer failure at every write index, over generated documents"),
     "C15": ("exploration",
-            "Metamorphic, model-free: one forest, two independently drawn spellings (unit, tabs, bullets per line, heading roots, blank lines, CRLF, final newline); outputs in every mode, walk visits, mkdir snapshots and verify verdict/reports must be identical. Exhaustive: forests <=4/6 nodes x all 15 pairs of the 6-spelling panel.",
+            "Metamorphic, model-free: one forest, two independently drawn spellings (unit, tabs, bullets per line, heading roots, blank and Unicode-blank lines, CRLF, final newline); outputs in every mode (also massive, compared as multisets of lines), walk visits, mkdir snapshots and verify verdict/reports must be identical. Exhaustive: forests <=4/7 nodes x all 15 pairs of the 6-spelling panel.",
             "the speller produces exactly the notation family of the statement (no other liberties); heading spelling only when root names have no edge blanks",
             PBT + ": metamorphic relation between two generated spellings of one forest"),
     "C16": ("exploration",
@@ -72,7 +72,7 @@ D = {
             "the mapping from flags to library options is the oracle's reading of the documented flags; extensions that the flag parser cannot express (blank edges, commas) are not generated; a closed stdout is accepted as /dev/null (Go runtime re-opens it); --watch and web are excluded",
             PBT + ": differential testing CLI vs library over generated command lines, documents, stdout states and directory states"),
     "C17": ("exploration",
-            "cmd/outworker is compiled twice from one source (default, -tags tinywasm); both processes receive the same generated case stream: accept/reject must agree and accepted outputs must be byte-identical for text (default/custom branch strings), JSON and dry-run + extensions. Exhaustive over forests <=5/6 nodes x spelling panel x 4 option sets, malformations, C12's hostile constants.",
+            "cmd/outworker is compiled twice from one source (default, -tags tinywasm); both processes receive the same generated case stream: accept/reject must agree and accepted outputs must be byte-identical for text (default/custom branch strings), JSON and dry-run + extensions. Exhaustive over forests <=5/7 nodes x spelling panel x 4 option sets, malformations, C12's hostile constants and multi-root documents beyond 64 KiB.",
             "compares the tag-selected Go sources under the stock Go compiler on linux/amd64; TinyGo's compiler/runtime and the JS glue are out of reach offline",
             PBT + ": differential testing between two build variants of one driver"),
 }
